@@ -372,6 +372,8 @@ def perparam_law(family, p0, x, N, findings, stats, tag):
             consts.append(None)
             continue
         outs = numpy.array(outs)
+        _note_disp(p0, stats, ('param', i), tag.get('which', 0), outs.astype(float) - float(x[name]),
+                   TWO_PI if 'angular' in family else None)
 
         def rep(y, _i=i, _name=name):
             q = dict(frozen_out)
@@ -418,7 +420,8 @@ def int_compare(family, p0, x, name, outs, nacc, N, rep, findings, stats, n, tag
     if outside:
         worst = (outside / nacc, 'outside the bounds', outside / nacc, 0.0)
     if worst is not None:
-        findings.append(('%s:law' % family,
+        _law_mismatch(family, p0, stats, findings, ('param', list(p0.parameters).index(name)), (
+                         '%s:law' % family,
                          '%s: reported mass of %s=%s from %s is %.5f, the jump law (quantile grid N=%d, %d accepted) '
                          'gives %.5f; |diff| %.2g > tolerance %.2g' % (
                              family, name, worst[1], {k: float(v) for k, v in x.items()}, worst[3], N, nacc,
@@ -470,7 +473,8 @@ def cont_compare(family, p0, x, name, outs, nacc, N, rep, findings, stats, n, ta
     if outside and not hasattr(p0, '_halfwidth'):
         worst = (outside / nacc, 'outside', outside / nacc, 0.0, 0.0)
     if worst is not None:
-        findings.append(('%s:law' % family,
+        _law_mismatch(family, p0, stats, findings, ('param', i), (
+                         '%s:law' % family,
                          '%s: integral of the reported pdf of %s up to %s from %s is %.5f, the jump law '
                          '(quantile grid N=%d, %d accepted) gives %.5f; tolerance %.2g' % (
                              family, name, worst[1], {k: float(v) for k, v in x.items()}, worst[3], N, nacc,
@@ -480,16 +484,100 @@ def cont_compare(family, p0, x, name, outs, nacc, N, rep, findings, stats, n, ta
     return (C, 2.0 * qerr[-1] + 2.0 / N * C)
 
 
+# --------------------------------------------------------------------------
+# families that declare themselves symmetric: what a law mismatch means
+# --------------------------------------------------------------------------
+# For a symmetric family the chain never uses the reported density; the property asks that
+# the reported values are symmetric (checked directly) and that the *jump law* is symmetric.
+# A reported density of a different shape than the law is then not a violation by itself.
+# A mismatch found for such a family is therefore held back and decided by looking at the
+# measured law alone: it is symmetric if the displacement x' - x is distributed evenly about 0
+# and in the same way from both from-points (every symmetric family here is a translation /
+# rotation family).  Counting error of each one-sided mass: 3/(n-1).
+
+def _law_mismatch(family, p0, stats, findings, keyp, finding):
+    if getattr(p0, 'symmetric', False):
+        stats.setdefault('_pending', []).append((keyp, finding))
+    else:
+        findings.append(finding)
+
+
+def _note_disp(p0, stats, keyp, which, d, period=None):
+    if getattr(p0, 'symmetric', False):
+        d = numpy.asarray(d, dtype=float)
+        if period:
+            d = (d + period / 2.0) % period - period / 2.0
+        stats.setdefault('_disp', []).append((keyp, which, numpy.sort(d)))
+
+
+def _even(srt):
+    n = len(srt)
+    tol = 7.0 / (n - 2)
+    for t in numpy.quantile(numpy.abs(srt), numpy.linspace(0.05, 0.95, 13)):
+        up = 1.0 - float(numpy.searchsorted(srt, t, side='right')) / n       # P(d > t)
+        dn = float(numpy.searchsorted(srt, -t, side='left')) / n             # P(d < -t)
+        if not abs(up - dn) <= tol:
+            return False, (float(t), up, dn, tol)
+    return True, None
+
+
+def _same(a, b):
+    tol = 4.0 / (len(a) - 2) + 4.0 / (len(b) - 2)
+    for t in numpy.quantile(numpy.concatenate([a, b]), numpy.linspace(0.04, 0.96, 17)):
+        fa = float(numpy.searchsorted(a, t, side='right')) / len(a)
+        fb = float(numpy.searchsorted(b, t, side='right')) / len(b)
+        # integer displacements: compare strictly below as well
+        if not abs(fa - fb) <= tol:
+            return False, (float(t), fa, fb, tol)
+    return True, None
+
+
+def resolve_symmetric(family, findings, stats):
+    pend = stats.pop('_pending', [])
+    disp = stats.pop('_disp', [])
+    az = stats.pop('_az', [])
+    stats['_az'] = az
+    for keyp, finding in pend:
+        arrs = [d for kp, w, d in disp if kp == keyp and len(d) > 50]
+        why = None
+        if keyp == ('sphere',) and not all(stats.get('_az', [True])):
+            why = 'the azimuth of the jumps about the from-point is not uniform'
+        for d in ([] if keyp == ('sphere',) else arrs):
+            ok, info = _even(d)
+            if not ok:
+                why = 'the displacement is not distributed evenly: P(d > %.4g) = %.5f, P(d < -%.4g) = %.5f ' \
+                      '(tolerance %.2g)' % (info[0], info[1], info[0], info[2], info[3])
+                break
+        if why is None and len(arrs) >= 2:
+            ok, info = _same(arrs[0], arrs[1])
+            if not ok:
+                why = 'the displacement law depends on the from-point: CDF at %.4g is %.5f from one point, %.5f ' \
+                      'from the other (tolerance %.2g)' % info
+        if why is None and arrs:
+            stats.setdefault('notes', []).append(
+                '%s: the reported density differs in shape from the jump law (%s), but the family is symmetric, '
+                'the reported values are symmetric and the measured jump law is even and position independent: '
+                'the Hastings factor is unaffected' % (family, finding[1][:160]))
+        else:
+            key, text, payload = finding
+            payload = dict(payload)
+            payload['kind'] = 'symmetric-law'
+            findings.append(('%s:symmetric-law' % family,
+                             '%s declares symmetric=True but its jump law is not symmetric: %s. [%s]' % (
+                                 family, why or 'no displacement sample', text[:300]), payload))
+    stats.pop('_az', None)
+
+
 def normaliser_check(family, p0, ests, findings, stats):
     """`ests`: [(from-point, (c, relative error) or None)].  A reported density that is a constant
     multiple of the jump law gives the right Hastings factor; one whose factor depends on the
     from-point does not."""
     ests = [(x, e) for x, e in ests if e is not None]
-    for x, (c, rel) in ests:
+    for x, (c, rel) in ests[:1]:
         if not abs(c - 1.0) <= rel * max(c, 1.0):
             stats.setdefault('notes', []).append(
-                '%s (%d parameters): reported pdf = %.6g x jump law from %r (a constant factor does not change '
-                'the Hastings ratio)' % (family, len(p0.parameters), c, x))
+                '%s (%d parameters): reported pdf = %.5g x jump law, the same factor from every from-point '
+                '(a constant factor does not change the Hastings ratio)' % (family, len(p0.parameters), c))
     for (x, (c1, r1)), (y, (c2, r2)) in zip(ests[:-1], ests[1:]):
         stats['normaliser_pairs'] = stats.get('normaliser_pairs', 0) + 1
         if not abs(c1 - c2) <= (r1 + r2) * max(c1, c2):
@@ -758,20 +846,24 @@ class EigenPlan:
         return float(v)
 
 
-def eigen_law(family, p0, x, N, findings, stats, every=40, on_boundary=False):
+def eigen_law(family, p0, x, N, findings, stats, every=40, on_boundary=False, cells=32, per=16, which=0):
     """Most recent jump and its reverse, per eigen-direction: the law of the step along the
-    chosen direction against the density reported right after each jump."""
+    chosen direction against the density reported right after a jump with that step.
+
+    The reported density exists only for the most recent jump, so it is read on a uniform grid of
+    steps by scripting one jump per node (the step is the generator's return value)."""
     names = list(p0.parameters)
     n = len(names)
     probs_seen = []
     cs = []
     for ind in range(n):
-        if p0.eigvals[ind] <= 0:
+        scale = float(p0.eigvals[ind])
+        if not scale > 0:
             continue
         p = copy.deepcopy(p0)
         plan = EigenPlan(ind, zgrid(N))
         p._verif_gen = Gen(plan)
-        steps, fwd, rev, pts = [], [], [], []
+        steps, some = [], []
         k = 0
         while True:
             p._verif_gen.calls = []
@@ -779,70 +871,90 @@ def eigen_law(family, p0, x, N, findings, stats, every=40, on_boundary=False):
                 out = p.jump(x)
             except Exhausted:
                 break
-            dx = float(p._dx)
             for c in p._verif_gen.calls:
                 if c[0] == 'choice' and len(probs_seen) < 4:
                     probs_seen.append(c[2])
-            steps.append(dx)
-            if k % every == 0:
-                pts.append((dx, float(p.pdf(out, x)), float(p.pdf(x, out)), out))
+            steps.append(float(p._dx))
+            if k % every == 0 and len(some) < 40:
+                some.append((float(p._dx), float(p.pdf(out, x)), float(p.pdf(x, out)), out))
             k += 1
         stats['jumps'] = stats.get('jumps', 0) + len(steps)
         stats['grid_points'] = stats.get('grid_points', 0) + N
         nacc = len(steps)
-        if nacc < 200 or len(pts) < 12:
+        if nacc < 200:
             stats['skipped_low_acceptance'] = stats.get('skipped_low_acceptance', 0) + 1
             stats['skipped_low_acceptance:' + family] = stats.get('skipped_low_acceptance:' + family, 0) + 1
             continue
         steps = numpy.sort(numpy.array(steps))
-        pts.sort(key=lambda t: t[0])
-        d = numpy.array([t[0] for t in pts])
-        f = numpy.array([t[1] for t in pts])
-        stats['pdf_evaluations'] = stats.get('pdf_evaluations', 0) + 2 * len(pts)
-        # cumulative trapezoid on the sampled steps, and on every other sample (error estimate)
-        cum = numpy.concatenate([[0.0], numpy.cumsum(0.5 * (f[1:] + f[:-1]) * numpy.diff(d))])
-        total = cum[-1] + 0.0
-        # mass outside the sampled range is known from the counts
-        inside = (float(numpy.searchsorted(steps, d[-1], side='right'))
-                  - float(numpy.searchsorted(steps, d[0], side='left'))) / nacc
-        d2, f2 = d[::2], f[::2]
-        cum2 = numpy.concatenate([[0.0], numpy.cumsum(0.5 * (f2[1:] + f2[:-1]) * numpy.diff(d2))])
+        _note_disp(p0, stats, ('eig', ind), which, steps)
+        a, b = float(steps[0]), float(steps[-1])
+        M = cells * per
+        ts = numpy.linspace(a, b, M + 1)
+        ts[0], ts[-1] = a, b
+        q = copy.deepcopy(p0)
+        pl = EigenPlan(ind, [])
+        q._verif_gen = Gen(pl)
+        vals = numpy.empty(M + 1)
+        ok = True
+        for m_, t in enumerate(ts):
+            pl.fixed = float(t) / scale
+            q._verif_gen.calls = []
+            q._verif_gen.limit = 50
+            try:
+                o = q.jump(x)
+            except (Runaway, Exhausted):
+                ok = False
+                break
+            vals[m_] = float(q.pdf(o, x))
+        q._verif_gen.limit = None
+        stats['pdf_evaluations'] = stats.get('pdf_evaluations', 0) + M + 1
+        if not ok:
+            stats['machinery_trouble'] = stats.get('machinery_trouble', 0) + 1
+            stats.setdefault('trouble', []).append('%s: a step inside the accepted range was rejected' % family)
+            continue
+        if not numpy.isfinite(vals).all():
+            findings.append(('%s:nonfinite' % family,
+                             '%s: reported pdf of the most recent jump is not finite for a step inside the accepted '
+                             'range (eigenvector %d, from %r)' % (family, ind, x),
+                             dict(describe(family, p0, x), kind='nonfinite', ind=ind)))
+            continue
+        h = (b - a) / M
+        cum, cumc = simpson_cum(vals, h, per)
+        C = float(cum[-1])
+        qerr = numpy.abs(cum - cumc)
+        # [a, b] carries all accepted grid points; the law puts at most 2/(nacc-1) outside
+        cs.append((ind, C, 2.0 * qerr[-1] / C + 3.0 / (nacc - 2) + 1e-9))
         worst = None
-        # reported = c * law on this chord; c must be the same for every chord and from-point
-        c_est = float(total / inside) if inside > 0 else float('nan')
-        jlast = len(d) - 1 - (len(d) - 1) % 2
-        c_rel = (abs(cum[jlast] - cum2[jlast // 2]) * 3 / max(total, 1e-300) + 8.0 / (nacc - 2) + 1e-9)
-        cs.append((ind, c_est, c_rel))
-        for j in range(0, len(d), 2):
-            emp = (float(numpy.searchsorted(steps, d[j], side='right'))
-                   - float(numpy.searchsorted(steps, d[0], side='left'))) / nacc
-            qerr = abs(cum[j] - cum2[j // 2]) * 2 / c_est + 1e-12
-            tol = 4.0 / (nacc - 2) + 2.0 / N + qerr * 1.5 + c_rel * emp
+        for kk in range(cells + 1):
+            edge = ts[kk * per]
+            emp = float(numpy.searchsorted(steps, edge, side='right')) / nacc
+            r = cum[kk] / C
+            tol = 5.0 / (nacc - 2) + 2.0 / N + 2.0 * (qerr[kk] + qerr[-1]) / C
             stats['cells'] = stats.get('cells', 0) + 1
-            if not abs(emp - cum[j] / c_est) <= tol:
-                if worst is None or abs(emp - cum[j] / c_est) - tol > worst[0]:
-                    worst = (abs(emp - cum[j] / c_est) - tol, float(d[j]), emp, float(cum[j] / c_est), tol)
+            if not abs(emp - r) <= tol:
+                if worst is None or abs(emp - r) - tol > worst[0]:
+                    worst = (abs(emp - r) - tol, float(edge), emp, float(r), tol)
         if worst is not None:
-            findings.append(('%s:law' % family,
+            _law_mismatch(family, p0, stats, findings, ('eig', ind), (
+                             '%s:law' % family,
                              '%s: along eigenvector %d from %r the reported density of the most recent jump '
                              'integrates to %.5f up to step %.4f, the jump law gives %.5f (tolerance %.2g)' % (
                                  family, ind, x, worst[3], worst[1], worst[2], worst[4]),
                              dict(describe(family, p0, x), kind='law-eigen', ind=ind, N=N, step=worst[1],
-                                  reported_cdf=worst[3], measured_cdf=worst[2], tolerance=worst[4],
-                                  mass_inside=inside, total=float(total))))
+                                  reported_cdf=worst[3], measured_cdf=worst[2], tolerance=worst[4], total=C)))
         # the reverse: density reported for x' -> x right after x -> x' must be the density the
         # proposal reports for the jump x' -> x itself (same direction, step -dx)
-        for dx, fw, rv, out in pts[2:-2:max(1, len(pts) // 12)]:
+        for dx, fw, rv, out in some[2:-2:max(1, len(some) // 12)]:
             if on_boundary:
                 break       # a from-point exactly on a face: the way back ends within rounding of the face
             q = copy.deepcopy(p0)
             pl = EigenPlan(ind, [])
             q._verif_gen = Gen(pl)
-            scale = float(p0.eigvals[ind])
             pl.fixed = -dx / scale
+            q._verif_gen.limit = 50
             try:
                 back = q.jump(out)
-            except (Exhausted, ValueError):
+            except (Exhausted, Runaway, ValueError):
                 continue
             want = float(q.pdf(back, out))
             stats['reverse_checks'] = stats.get('reverse_checks', 0) + 1
@@ -857,11 +969,17 @@ def eigen_law(family, p0, x, N, findings, stats, every=40, on_boundary=False):
                                  '%s: after the jump %r -> %r (eigenvector %d, step %.6g) the reverse density is '
                                  'reported as %r, but the jump back reports %r for itself' % (
                                      family, x, out, ind, dx, rv, want),
-                                 dict(describe(family, p0, x), kind='reverse', ind=ind, step=dx, to=out,
+                                 dict(describe(family, p0, x), kind='reverse', ind=ind, step=dx,
+                                      to={k_: float(v_) for k_, v_ in out.items()},
                                       reverse_reported=rv, reverse_jump_reports=want)))
                 break
     if len(probs_seen) >= 2:
         stats['direction_prob_checks'] = stats.get('direction_prob_checks', 0) + 1
+        if not all(numpy.array_equal(probs_seen[0], q_) for q_ in probs_seen[1:]):
+            findings.append(('%s:direction-probabilities' % family,
+                             '%s: the probabilities of the eigen-directions differ between jumps from the same '
+                             'state: %r' % (family, [list(map(float, q_)) for q_ in probs_seen]),
+                             dict(describe(family, p0, x), kind='direction-probabilities')))
     return cs
 
 
@@ -911,7 +1029,7 @@ def from_cart(p, v):
     return phi, theta
 
 
-def sphere_law(family, p0, x, m, findings, stats, ncap=10, nsec=4):
+def sphere_law(family, p0, x, m, findings, stats, ncap=10, nsec=4, which=0):
     """von Mises-Fisher: masses of caps around the from-point and of cap x sector cells against
     the integral of the reported pdf with respect to solid angle."""
     names = list(p0.parameters)
@@ -943,6 +1061,10 @@ def sphere_law(family, p0, x, m, findings, stats, ncap=10, nsec=4):
         findings.append(('%s:nonfinite' % family, '%s: jump from %r produced a non-finite point' % (family, x),
                          dict(describe(family, p0, x), kind='nonfinite')))
         return None
+    # kept for the decision about symmetric families: distance law and isotropy of the jump law itself
+    _note_disp(p0, stats, ('sphere',), which, cosd[:k])
+    secs = [float(((azim[:k] >= s_ * TWO_PI / 8) & (azim[:k] < (s_ + 1) * TWO_PI / 8)).sum()) / N for s_ in range(8)]
+    stats.setdefault('_az', []).append(max(abs(v_ - 0.125) for v_ in secs) <= 3.0 / N + 1e-9)
     # cap levels at equal-probability quantiles of the measured cosines
     srt = numpy.sort(cosd)
     levels = [float(srt[int(N * q)]) for q in numpy.linspace(0.08, 0.92, ncap)]
@@ -984,7 +1106,8 @@ def sphere_law(family, p0, x, m, findings, stats, ncap=10, nsec=4):
             if worst is None or abs(emp - r) > worst[0]:
                 worst = (abs(emp - r), lev, emp, float(r), tol)
     if worst is not None:
-        findings.append(('%s:law' % family,
+        _law_mismatch(family, p0, stats, findings, ('sphere',), (
+                         '%s:law' % family,
                          '%s (kappa=%.4g) from %r: the reported pdf puts mass %.5f on angular distances with '
                          'cos <= %.4f, the jump law (Hammersley net, N=%d) gives %.5f; tolerance %.2g' % (
                              family, float(p0.kappa), x, worst[3], worst[1], N, worst[2], worst[4]),
@@ -1003,7 +1126,8 @@ def sphere_law(family, p0, x, m, findings, stats, ncap=10, nsec=4):
             tol = disc + 10 * abs(v2 - v1) + 10 * qtot + 1e-7
             stats['cells'] = stats.get('cells', 0) + 1
             if not abs(emp - v2) <= tol:
-                findings.append(('%s:law' % family,
+                _law_mismatch(family, p0, stats, findings, ('sphere',), (
+                                 '%s:law' % family,
                                  '%s from %r: cell cos in (%.3f, %.3f], azimuth sector %d/%d about the centre: '
                                  'reported mass %.5f, jump law %.5f (tolerance %.2g)' % (
                                      family, x, c_lo, c_hi, s, nsec, v2, emp, tol),
@@ -1176,9 +1300,9 @@ def run_unit(unit):
                                               seed=unit['seed'] % 997 + 5, same_bounds=unit.get('same_bounds', False))
                 x = point(kind, doms, names, rng, unit.get('where', 'inside'))
                 if fam in PERPARAM:
-                    cx = perparam_law(fam, p0, x, unit['N'], findings, stats, unit)
+                    cx = perparam_law(fam, p0, x, unit['N'], findings, stats, {'which': 0})
                     y = point(kind, doms, names, rng)
-                    cy = perparam_law(fam, p0, y, unit['N'], findings, stats, unit) if y != x else None
+                    cy = perparam_law(fam, p0, y, unit['N'], findings, stats, {'which': 1}) if y != x else None
                     normaliser_check(fam, p0, [(x, cx), (y, cy)], findings, stats)
                     pool = query_pool(fam, p0, rng)
                     symmetric_reported(fam, p0, [(x, y)] + [(q[1], q[0]) for q in pool], findings, stats)
@@ -1188,10 +1312,12 @@ def run_unit(unit):
                         symmetric_measured_int(fam, p0, x, y, min(unit['N'], 20000), findings, stats)
                 elif fam in EIGEN:
                     onb = unit.get('where', 'inside') != 'inside' and 'bounded' in fam
+                    cells, per = unit.get('nodes', (32, 16))
                     cs = eigen_law(fam, p0, x, unit['N'], findings, stats, every=unit.get('every', 40),
-                                   on_boundary=onb)
+                                   on_boundary=onb, cells=cells, per=per)
                     y = point(kind, doms, names, rng)
-                    cs2 = eigen_law(fam, p0, y, unit['N'], findings, stats, every=unit.get('every', 40))
+                    cs2 = eigen_law(fam, p0, y, unit['N'], findings, stats, every=unit.get('every', 40),
+                                    cells=cells, per=per, which=1)
                     ests = [(dict(x, eigenvector=i), (c, r)) for i, c, r in cs] + \
                            [(dict(y, eigenvector=i), (c, r)) for i, c, r in cs2]
                     normaliser_check(fam, p0, ests, findings, stats)
@@ -1200,13 +1326,14 @@ def run_unit(unit):
                         x = {names[0]: x[names[0]], names[1]: 1e-3}      # next to the pole
                     cx = sphere_law(fam, p0, x, unit['m'], findings, stats)
                     y = point(kind, doms, names, rng)
-                    cy = sphere_law(fam, p0, y, unit['m'], findings, stats)
+                    cy = sphere_law(fam, p0, y, unit['m'], findings, stats, which=1)
                     normaliser_check(fam, p0, [(x, cx), (y, cy)], findings, stats)
                     symmetric_reported(fam, p0, [(x, y)], findings, stats)
                     history_independence(fam, p0, [(y, x), (x, y), (x, x)], findings, stats, 3)
     except (Runaway, KeyError) as e:
         stats['machinery_trouble'] = stats.get('machinery_trouble', 0) + 1
         stats.setdefault('trouble', []).append('%s %r: %r' % (fam, unit, e))
+    resolve_symmetric(fam, findings, stats)
     stats['units'] = 1
     stats['family:' + fam] = 1
     return findings, stats
@@ -1218,7 +1345,7 @@ def plan_units(seed, tier, full=False):
     units = []
     quick = tier == 'quick' and not full
     bigN, smallN = (20000, 2500) if quick else (20000, 20000)
-    nbig, nsmall = (3, 9) if quick else (0, 60)
+    nbig, nsmall = (3, 6) if quick else (0, 40)
     hugeN, nhuge = (0, 0) if quick else (1000000, 2)
     wheres = ['inside', 'lower', 'upper', 'inside']
     for fam in sorted(F.FAMILIES):
@@ -1226,6 +1353,8 @@ def plan_units(seed, tier, full=False):
         adaptive = fam in F.ADAPTIVE
         cfgs = [(bigN, j) for j in range(nbig)] + [(smallN, j + nbig) for j in range(nsmall)] \
             + [(hugeN, j + nbig + nsmall) for j in range(nhuge)]
+        if fam in EIGEN and 'bounded' in fam:         # 0.15 ms per draw (numpy.isclose in __contains__)
+            cfgs = cfgs[:5] if quick else cfgs[:14] + cfgs[-1:]
         for N, j in cfgs:
             u = dict(kind='proposal', family=fam, seed=rng.randrange(1 << 30), N=N,
                      nparams=lo + (j % (hi - lo + 1)), where=wheres[j % 4])
@@ -1244,6 +1373,7 @@ def plan_units(seed, tier, full=False):
                 if 'bounded' in fam:
                     u['N'] = min(u['N'], 6000 if quick else 60000)
                     u['every'] = 15 if quick else 60
+                    u['nodes'] = (16, 8) if quick else (32, 16)
             if fam in SPHERE:
                 u['m'] = 14 if N <= 20000 else 18
                 if N < 20000:
@@ -1264,18 +1394,30 @@ def plan_units(seed, tier, full=False):
     return units
 
 
-def run_units(units, workers=16):
-    """Run the units on a process pool; returns (findings, aggregated stats)."""
+def start_units(units, workers=16):
+    """Start the units on a process pool; returns a handle for `finish_units`."""
     import multiprocessing as mp
-    findings, agg = [], {}
-    order = sorted(range(len(units)), key=lambda k: -units[k].get('N', 0))
+    order = sorted(range(len(units)), key=lambda k: -units[k].get('N', 0) * (8 if 'bounded_eig' in units[k]['family'] else 1))
     ordered = [units[k] for k in order]
     if workers <= 1 or len(units) < 4:
+        return ordered, None, None
+    ctx = mp.get_context('fork')
+    pool = ctx.Pool(min(workers, len(units)))
+    return ordered, pool, pool.map_async(run_unit, ordered, chunksize=1)
+
+
+def finish_units(handle):
+    """Collect: (findings, aggregated stats)."""
+    ordered, pool, res = handle
+    if pool is None:
         results = [run_unit(u) for u in ordered]
     else:
-        ctx = mp.get_context('fork')
-        with ctx.Pool(min(workers, len(units))) as pool:
-            results = pool.map(run_unit, ordered, chunksize=1)
+        try:
+            results = res.get()
+        finally:
+            pool.close()
+            pool.join()
+    findings, agg = [], {}
     for u, (f, st) in zip(ordered, results):
         for key, text, payload in f:
             payload = dict(payload)
@@ -1287,6 +1429,10 @@ def run_units(units, workers=16):
             else:
                 agg[k] = agg.get(k, 0) + v
     return findings, agg
+
+
+def run_units(units, workers=16):
+    return finish_units(start_units(units, workers))
 
 
 def replay_unit(unit):
